@@ -20,6 +20,11 @@ CLAIMED = {
    text="Decides that the program hands SQLite exactly one transaction per block containing all and only that block's writes plus the height record: every write reachable from SyncBlock/NullifyBurnAddress/InsertSynced runs on the caller's *sql.Tx (45+ statements, QueryAble arguments resolved per call site); in DBlockSync the order block -> InsertSynced -> Commit holds by dominance, Commit is confined to nil-error branches, every error branch rolls back, no path leaks the open transaction, the in-memory height can never get ahead of a failed block, the height applied is synced+1; Commit/Rollback exist nowhere else and the *sql.Tx never escapes; pn_sync_version is keyed by height and written by plain INSERT; start-up resumes from the persisted height. Every crash point inside a block is covered at once because all of them fall inside that one transaction. What SQLite does at a kill is trusted, not decided.",
    note="Trusted: SQLite atomic commit/rollback, database/sql transaction semantics, go/ssa. Reads through the connection pool inside a block are listed in the evidence (they see committed state) and do not affect atomicity.",
    ref="DESIGN.md §2.7 E3/E4, §4 C02"),
+ "C07": dict(
+   technique="abstract decision tables (SCCP with a symbolic order oracle over spot/average orderings; HasConversions scenarios) + SSA provenance/dominance (reaching definitions of the rates argument, holding window induction variable, Mul-before-Div dataflow, same-transaction roots of Convert inputs) + SQL catalogue table-reference rule",
+   text="Decides timing and rate selection structurally: a batch with conversions is only ever placed in holding on arrival and a batch without is applied with nil rates; the rates given to the holding executor are SelectPendingRates of the executing block's own height (other reaching definitions enumerated), rate queries read pn_rate only; held batches are scanned for [last rated height, current) stepped by one with the averages of that last rated height. Decides the formula's shape: for all 27 (era x ordering) cells the source rate is fromRate before PIP-10 and min(fromRate, fromAvg) from it, the destination toRate resp. max(toRate, toAvg); result = Div(Mul(amount, source), destination) on big.Int with an IsInt64 guard; every Convert call site gets the executing height and takes amount and rate keys from one and the same transaction. Does not decide floor(a*r/s) over the numeric range (math/big trusted) nor exactly-once over arbitrary block patterns (C06).",
+   note="Trusted: math/big, mainnet activation constants, go/ssa.",
+   ref="DESIGN.md §2.6, §4 C07"),
  "C09": dict(
    technique="carried-state footprint: field-based shared-location analysis over go/ssa of every in-memory location written and read by functions reachable from the sync root, context = sync goroutine",
    text="Decides a sufficient structural condition and reports its exceptions: the only in-memory state that block n may leave for block n+1 is the sync height (persisted and restored). The footprint today is that height plus the three rolling-average cache fields, which are recorded as a known genuine defect (count-trimmed incrementally, window-rebuilt after restart); any new carried location or new writer of one is a violation. Does not decide equality of ledgers across restart placements.",
